@@ -38,9 +38,19 @@
    NOT proved in general (menu only): (F2) when the flock itself fails.
    For PERSISTENT faults (F4) is false: witness
    [C13g_persistent_fault_defeats_rollback], and the full statement [C13_general_statement] is
-   refuted by it ([C13g_statement_false]). *)
+   refuted by it ([C13g_statement_false]).
+   (F4p), PERSISTENT faults, pid bound OR NOT, every variant of store_object / tag_object, every state
+   satisfying the invariant, every k (FaultPersistBound.v): a call that raises leaves no lock and
+   leaves the pid's reference files as before, or the pid completely unbound, or is a member of the
+   D10 family stated positively — the failure was delivered to an operation on the pid's reference
+   file or on the list of the call's cid, the pid had no reference, and now has one naming the call's
+   cid, with or without its list line ([C13g_persistent_fault_consistent_or_D10]).  NO other kind of
+   damage exists.  Corollaries: a pid that had a reference is never damaged
+   ([C13g_persistent_fault_bound_pid_consistent]); a failure sticking to any other destination
+   leaves the pid consistent ([C13g_persistent_fault_elsewhere_consistent]).  Non-vacuous, one
+   example per disjunct: [C13g_persistent_fault_examples]. *)
 From HS Require Import Base PyVal FS Ops Spec Sched Refine CrashFault Integrity CrashGeneral FaultGeneral
-  FaultSuccess FaultPersist FaultBound FaultRetry.
+  FaultSuccess FaultPersist FaultBound FaultRetry FaultPersistBound.
 From HS Require Bracket Indep.
 
 (* ---------- the fault semantics covered ---------- *)
@@ -663,3 +673,104 @@ Example C13g_retry_after_leftovers :
            Val (VMeta 8 2))).
 Proof. exact retry_after_leftovers. Qed.
 Print Assumptions C13g_retry_after_leftovers.
+
+(* ---------- (F4p) PERSISTENT faults: consistent, or the D10 family (FaultPersistBound.v) ---------- *)
+
+(* store_object(pid, ...) — every source, every size / checksum argument — or tag_object(pid, cid),
+   from EVERY state satisfying the representation invariant (the pid bound or not), every k, the
+   k-th fault site failing PERSISTENTLY (it and every later site with the same destination
+   [dest_of]): if the call raises, no lock is left and
+   - the pid's reference and every cid list are as before the call, or
+   - the pid has no reference and is listed in no cid list, or
+   - (the D10 family) the operation at the k-th fault site of the call has the pid's reference file
+     or the list of the call's cid as its destination; the pid had no reference before the call; it
+     has one now, naming the call's cid; every other cid list is as before; and the list of the
+     call's cid contains the pid (D10-bound), or exists and is as before the call — without the
+     pid, by the invariant — (D10-half-bound). *)
+Theorem C13g_persistent_fault_consistent_or_D10 :
+  forall (w0 : world) (c : call) (p : pid) (k : nat) (w : world) (e : exn),
+    Inv w0 ->
+    (match c with CStore _ _ _ _ _ _ | CTag _ _ => true | _ => false end) = true ->
+    call_pid c = Some p ->
+    run_fault (FWait k true) w0 (api c) = Some (w, Exn e) ->
+    locks w = [] /\
+    ((lookup (APidRef p) (fs w) = lookup (APidRef p) (fs w0) /\
+      forall k' : cid, lookup (ACidRef k') (fs w) = lookup (ACidRef k') (fs w0))
+     \/
+     (lookup (APidRef p) (fs w) = None /\
+      forall (k' : cid) (l : list pid), lookup (ACidRef k') (fs w) = Some (CLines l) -> ~ In p l)
+     \/
+     exists (cd : cid) (o : op),
+       (match c with CStore _ _ b _ _ _ => Some b | CTag _ k' => Some k' | _ => None end) = Some cd /\
+       site_op k w0 (api c) = Some o /\
+       (dest_of o = DAddr (APidRef p) \/ dest_of o = DAddr (ACidRef cd)) /\
+       lookup (APidRef p) (fs w0) = None /\
+       lookup (APidRef p) (fs w) = Some (CCid cd) /\
+       (forall k' : cid, k' <> cd -> lookup (ACidRef k') (fs w) = lookup (ACidRef k') (fs w0)) /\
+       ((exists l : list pid, lookup (ACidRef cd) (fs w) = Some (CLines l) /\ In p l)
+        \/
+        (lookup (ACidRef cd) (fs w) = lookup (ACidRef cd) (fs w0) /\
+         lookup (ACidRef cd) (fs w0) <> None))).
+Proof. exact persistent_fault_consistent_or_D10. Qed.
+Print Assumptions C13g_persistent_fault_consistent_or_D10.
+
+(* a pid that HAD a reference is never damaged by a persistent failure *)
+Theorem C13g_persistent_fault_bound_pid_consistent :
+  forall (w0 : world) (c : call) (p : pid) (k : nat) (w : world) (e : exn) (x : fcontent),
+    Inv w0 ->
+    (match c with CStore _ _ _ _ _ _ | CTag _ _ => true | _ => false end) = true ->
+    call_pid c = Some p ->
+    lookup (APidRef p) (fs w0) = Some x ->
+    run_fault (FWait k true) w0 (api c) = Some (w, Exn e) ->
+    locks w = [] /\
+    ((lookup (APidRef p) (fs w) = lookup (APidRef p) (fs w0) /\
+      forall k' : cid, lookup (ACidRef k') (fs w) = lookup (ACidRef k') (fs w0))
+     \/
+     (lookup (APidRef p) (fs w) = None /\
+      forall (k' : cid) (l : list pid), lookup (ACidRef k') (fs w) = Some (CLines l) -> ~ In p l)).
+Proof. exact persistent_fault_bound_pid_consistent. Qed.
+Print Assumptions C13g_persistent_fault_bound_pid_consistent.
+
+(* a persistent failure delivered to an operation whose destination is neither the pid's reference
+   file nor the list of the call's cid *)
+Theorem C13g_persistent_fault_elsewhere_consistent :
+  forall (w0 : world) (c : call) (p : pid) (k : nat) (w : world) (e : exn),
+    Inv w0 ->
+    (match c with CStore _ _ _ _ _ _ | CTag _ _ => true | _ => false end) = true ->
+    call_pid c = Some p ->
+    (forall (o : op) (cd : cid),
+       site_op k w0 (api c) = Some o ->
+       (match c with CStore _ _ b _ _ _ => Some b | CTag _ k' => Some k' | _ => None end) = Some cd ->
+       dest_of o <> DAddr (APidRef p) /\ dest_of o <> DAddr (ACidRef cd)) ->
+    run_fault (FWait k true) w0 (api c) = Some (w, Exn e) ->
+    locks w = [] /\
+    ((lookup (APidRef p) (fs w) = lookup (APidRef p) (fs w0) /\
+      forall k' : cid, lookup (ACidRef k') (fs w) = lookup (ACidRef k') (fs w0))
+     \/
+     (lookup (APidRef p) (fs w) = None /\
+      forall (k' : cid) (l : list pid), lookup (ACidRef k') (fs w) = Some (CLines l) -> ~ In p l)).
+Proof. exact persistent_fault_elsewhere_consistent. Qed.
+Print Assumptions C13g_persistent_fault_elsewhere_consistent.
+
+(* non-vacuity, one example per disjunct.  Store {1 -> 7}: (a) tag_object(1, 8), the first makedirs
+   failing persistently: raises, binding intact; (b) the duplicate tag_object(1, 7), same failure: the
+   roll-back removes the binding, pid 1 is unbound.  (c) D10-bound: empty store, tag_object(1, 7),
+   site 8 = the verification's read of the new pid reference: reference and list line stay.
+   (d) D10-half-bound: store {1 -> 7}, tag_object(2, 7), site 5 = the read of the list of 7 before the
+   append: the reference of 2 stays, the list is as before, without 2. *)
+Example C13g_persistent_fault_examples :
+  let w1 := mkWorld [(AObj 7, CData 7 1 1); (APidRef 1, CCid 7); (ACidRef 7, CLines [1])] [] in
+  Inv w1 /\
+  run_fault (FWait 0 true) w1 (api (CTag 1 8)) = Some (w1, Exn EValueError) /\
+  run_fault (FWait 0 true) w1 (api (CTag 1 7)) = Some (mkWorld [(AObj 7, CData 7 1 1)] [], Exn EOSError) /\
+  (site_op 8 empty_world (api (CTag 1 7)) = Some (Read (APidRef 1)) /\
+   run_fault (FWait 8 true) empty_world (api (CTag 1 7)) =
+     Some (mkWorld [(APidRef 1, CCid 7); (ACidRef 7, CLines [1])] [], Exn EOSError)) /\
+  (site_op 5 w1 (api (CTag 2 7)) = Some (Read (ACidRef 7)) /\
+   run_fault (FWait 5 true) w1 (api (CTag 2 7)) =
+     Some (mkWorld [(AObj 7, CData 7 1 1); (APidRef 1, CCid 7); (APidRef 2, CCid 7);
+                    (ACidRef 7, CLines [1])] [], Exn EOSError)).
+Proof.
+  split; [exact exw17_Inv|]. vm_compute. repeat split; reflexivity.
+Qed.
+Print Assumptions C13g_persistent_fault_examples.
